@@ -143,6 +143,14 @@ FIXED = [
 ]
 
 
+# schemaLocation is schema-supplied text that the library turns into a file name: path shapes that are unusual but possible in the wild
+LOCATION_SHAPES = ['..\\common\\types.xsd', 'types..xsd', 'v1..2/types.xsd', 'common/..', '..', '../..', './', '/', '', 'a/../../b.xsd', './././x.xsd',
+                   'file:///etc/x.xsd', 'http://example.org/x.xsd?a=../b', 'x.xsd#frag', '%2e%2e/x.xsd', 'dir/', '\u00e9\u00e9/..\u00e9.xsd', 'a' * 5000 + '.xsd']
+FIXED += [(f'import-location-shape-{k}', '<xs:schema xmlns:xs="http://www.w3.org/2001/XMLSchema" targetNamespace="urn:a" xmlns:a="urn:a" xmlns:b="urn:b" elementFormDefault="qualified">'
+           f'<xs:import namespace="urn:b" schemaLocation="{loc}"/><xs:complexType name="T"><xs:sequence><xs:element name="x" type="xs:string"/></xs:sequence></xs:complexType></xs:schema>')
+          for k, loc in enumerate(LOCATION_SHAPES)]
+
+
 def search(repo: str = REPO, tier: str = 'quick', seed: int = 0) -> dict:
     rng = random.Random(seed)
     root = os.path.join(scratch(), 'c13')
